@@ -1,4 +1,34 @@
-(* C20 - placeholder statement file, replaced below *)
-From VJ Require Import Model.Str.
-Theorem C20_placeholder : True. Proof. exact I. Qed.
-Print Assumptions C20_placeholder.
+(* C20 - resolveType augments only Vue's defineComponent and never overrides the user. Statements only. *)
+From VJ Require Import Model.Str Model.Json Model.Ast Model.State Model.Util Model.Types Lemmas.TypesProofs.
+
+(* a call whose callee is not the binding imported by name from 'vue' is untouched, and so is
+   every call when resolveType is off *)
+Theorem C20_only_vue : forall E n s sy c0 c f a t dc,
+  (is_define_component_call n s = false -> hook_call E n s = (n, s))
+  /\ (define_component s = Some dc -> N.eqb dc c = false ->
+      is_define_component_call (Call sy c0 (Ident (s_ "defineComponent") c f) a t) s = false)
+  /\ (o_resolve_type (e_opts E) = false -> hook_call E n s = (n, s) /\ hook_declarator E n s = (n, s)).
+Proof.
+  intros. split; [apply not_define_component_untouched|].
+  split; [apply define_component_needs_the_binding|apply resolve_type_off_untouched].
+Qed.
+Print Assumptions C20_only_vue.
+
+(* an option the user wrote - in any spelling - is kept and nothing is added for it; a spread
+   argument list and an argument-less call are left alone *)
+Theorem C20_user_option_wins : forall a0 props r name v e,
+  (has_ident_key name props = true ->
+   inject_option (a0 :: Elem false (Obj props) :: r) name v = a0 :: Elem false (Obj props) :: r)
+  /\ inject_option (a0 :: Elem true e :: r) name v = a0 :: Elem true e :: r
+  /\ inject_option [] name v = [].
+Proof. intros. split; [apply inject_user_key_wins|]. split; reflexivity. Qed.
+Print Assumptions C20_user_option_wins.
+
+(* a derived option is inserted before the first spread of the user's object - every user
+   entry is kept in order, and whatever the user spreads comes later and wins *)
+Theorem C20_derived_before_spread : forall kv props,
+  exists pre post, props = pre ++ post /\ insert_before_spread kv props = pre ++ kv :: post
+                   /\ forallb (fun p => negb (is_spread p)) pre = true
+                   /\ match post with [] => True | p :: _ => is_spread p = true end.
+Proof. exact insert_keeps_entries. Qed.
+Print Assumptions C20_derived_before_spread.
